@@ -53,6 +53,9 @@ type Node struct {
 	Direct bool `json:"direct,omitempty"`
 	// ResKid: the last kid of a dolist/dotimes/do is the loop's result form
 	ResKid bool `json:"res_kid,omitempty"`
+	// Tag0: a tagged body also has a tag in front of its first form (the
+	// "do this again" idiom; seeded change C07-k2)
+	Tag0 bool `json:"tag0,omitempty"`
 	// CKid: the last kid of an unwind-protect is one of its cleanup forms
 	CKid bool `json:"c_kid,omitempty"`
 }
@@ -67,7 +70,15 @@ func (n *Node) tag(j int) string {
 }
 
 // tagged reports whether the kids of n are separated by tags.
-func (n *Node) tagged() bool { return n.K == "tagbody" || n.K == "prog" || n.Tags }
+func (n *Node) tagged() bool { return n.K == "tagbody" || n.K == "prog" || n.K == "progstar" || n.Tags }
+
+// firstTag is the index of the first kid that has a tag in front of it.
+func (n *Node) firstTag() int {
+	if n.Tag0 {
+		return 0
+	}
+	return 1
+}
 
 // loopKind reports whether n establishes a nil block (and an implicit tagbody).
 func loopKind(k string) bool {
@@ -188,6 +199,12 @@ func (g *genCtx) leaf() Node {
 		// loses its parameters on the unchanged tree - not a C07 matter)
 		g.nextID++
 		return Node{K: "recur", ID: g.nextID}
+	case x < 98 && g.inSend == 0:
+		// one unwind-protect site entered again while an outer activation is
+		// still inside its protected form (seeded change C07-k1: state kept
+		// on the form object instead of per activation)
+		g.nextID++
+		return Node{K: "reuwp", ID: g.nextID}
 	}
 	return Node{K: "val"}
 }
@@ -363,12 +380,13 @@ func (g *genCtx) node(depth int) Node {
 // it as forward targets and the tags up to it as backward targets.
 func (g *genCtx) taggedKids(n *Node, depth, nk int) {
 	saved, bsaved := g.tags, g.btags
+	n.Tag0 = g.r.Pct(30)
 	for i := 0; i < nk; i++ {
 		var later, earlier []string
 		for j := i + 1; j < nk; j++ {
 			later = append(later, n.tag(j))
 		}
-		for j := 1; j <= i; j++ {
+		for j := n.firstTag(); j <= i; j++ {
 			earlier = append(earlier, n.tag(j))
 		}
 		g.tags = append(append([]string{}, saved...), later...)
@@ -477,6 +495,11 @@ func (n *Node) render(dir string, b *strings.Builder) {
 		// runs the already compiled body).
 		w := fmt.Sprintf("w%d%s", n.ID, filepath.Base(dir))
 		fmt.Fprintf(b, "(progn (defun %s (n) (block wb (unwind-protect (return-from wb n) (when (> n 0) (sim-emit \"walk\" n (%s (- n 1))))))) (sim-emit \"walktop\" (%s 2)) (sim-emit \"walktop\" (%s 2)))", w, w, w, w)
+	case "reuwp":
+		// activation k (of 2, 1, 0) signals an error after the activations
+		// inside it have completed; every activation's cleanup has to run
+		u := fmt.Sprintf("ru%d%s", n.ID, filepath.Base(dir))
+		fmt.Fprintf(b, "(progn (defun %s (n) (unwind-protect (progn (when (> n 0) (%s (- n 1))) (sim-emit \"ru-body\" n) (when (= n %d) (sim-emit \"signal\" \"simple\") (error \"plain error\"))) (sim-emit \"ru-cleanup\" n))) (ignore-errors (%s 2)) (sim-emit \"ru-done\"))", u, u, n.ID%3, u)
 	case "seq":
 		fmt.Fprintf(b, "(progn %s)", all())
 	case "let":
@@ -539,7 +562,7 @@ func (n *Node) render(dir string, b *strings.Builder) {
 		if n.Tags {
 			var parts []string
 			for i := range n.Kids {
-				if i > 0 {
+				if i >= n.firstTag() {
 					parts = append(parts, fmt.Sprintf("%s (sim-emit \"at\" \"%s\")", n.tag(i), n.tag(i)))
 				}
 				parts = append(parts, kid(i))
@@ -579,7 +602,7 @@ func (n *Node) render(dir string, b *strings.Builder) {
 	case "tagbody":
 		b.WriteString("(tagbody ")
 		for i := range n.Kids {
-			if i > 0 {
+			if i >= n.firstTag() {
 				// the marker right after the tag tells that the go arrived
 				fmt.Fprintf(b, " %s (sim-emit \"at\" \"%s\") ", n.tag(i), n.tag(i))
 			}
@@ -1218,7 +1241,7 @@ func validTargets(n *Node, blocks, tags, btags []string) bool {
 				t = append(t, n.tag(j))
 			}
 			bt = append([]string{}, btags...)
-			for j := 1; j <= i; j++ {
+			for j := n.firstTag(); j <= i; j++ {
 				bt = append(bt, n.tag(j))
 			}
 		}
@@ -1287,12 +1310,17 @@ func (e *engine) Shrink(raw json.RawMessage) (out []json.RawMessage) {
 				}
 			}
 		}
-		if n.K == "err" || n.K == "ret" || n.K == "go" || n.K == "goback" || n.K == "recur" || n.K == "fwd" {
+		if n.K == "err" || n.K == "ret" || n.K == "go" || n.K == "goback" || n.K == "recur" || n.K == "fwd" || n.K == "reuwp" {
 			emit(replace(path, Node{K: "val"}))
 		}
 		if n.NilVal {
 			nn := cloneNode(*n)
 			nn.NilVal = false
+			emit(replace(path, nn))
+		}
+		if n.ResKid || n.CKid || (n.Tag0 && !hasGoTo(&c.Prog)) {
+			nn := cloneNode(*n)
+			nn.ResKid, nn.CKid, nn.Tag0 = false, false, false
 			emit(replace(path, nn))
 		}
 		if n.Direct || n.Sym {
